@@ -56,10 +56,65 @@ def _parents(n, stop):
     return out
 
 
+def _normalised_phase_loop(fi, loop):
+    """A phase loop over `[p for p in range(a, b) if p not in skip]` (possibly through a local) is the range loop with the
+    skip test first; returns the equivalent `for p in range(a, b): if p in skip: continue; <body>` or None."""
+    import copy
+
+    from ..model import expand_text
+
+    try:
+        it = ast.parse(expand_text(fi, loop.iter), mode="eval").body
+    except SyntaxError:
+        return None
+    if not (isinstance(it, (ast.ListComp, ast.GeneratorExp)) and len(it.generators) == 1):
+        return None
+    g = it.generators[0]
+    if not (isinstance(it.elt, ast.Name) and isinstance(g.target, ast.Name) and it.elt.id == g.target.id):
+        return None
+    if not (isinstance(g.iter, ast.Call) and isinstance(g.iter.func, ast.Name) and g.iter.func.id == "range"):
+        return None
+    skips = [q for q in fi.params if "skip" in q.lower()]
+    tests = []
+    for c in g.ifs:
+        if isinstance(c, ast.Compare) and len(c.ops) == 1 and isinstance(c.ops[0], ast.NotIn) and norm(c.left) == g.target.id and skips and norm(c.comparators[0]) == skips[0]:
+            tests.append(c)
+        else:
+            return None
+    new = copy.copy(loop)
+    new.iter = g.iter
+    body = list(loop.body)
+    if tests:
+        t = ast.Compare(left=ast.Name(id=loop.target.id, ctx=ast.Load()), ops=[ast.In()], comparators=[ast.Name(id=skips[0], ctx=ast.Load())])
+        body = [ast.If(test=t, body=[ast.Continue()], orelse=[])] + body
+    new.body = body
+    ast.copy_location(new, loop)
+    for n in ast.walk(new):
+        for ch in ast.iter_child_nodes(n):
+            if not hasattr(ch, "_parent") or n is new or isinstance(n, ast.If) and n is body[0]:
+                ch._parent = n
+        if not hasattr(n, "lineno"):
+            n.lineno = loop.lineno
+            n.col_offset = 0
+    new._parent = getattr(loop, "_parent", None)
+    return new
+
+
 def _loop_info(r, fi, what):
     loops = _range_loops(fi.node)
     phase = [l for l in loops if l.target.id.lower().startswith("phase") or l.target.id == "iPhase"]
     sub = [l for l in loops if "sub" in l.target.id.lower()]
+    if len(phase) == 0 and len(sub) == 1:
+        # the phase loop does not iterate a range directly
+        cand = [l for l in walk_function(fi.node) if isinstance(l, ast.For) and isinstance(l.target, ast.Name) and (l.target.id.lower().startswith("phase") or l.target.id == "iPhase") and l in _parents(sub[0], fi.node)]
+        if len(cand) == 1:
+            nl = _normalised_phase_loop(fi, cand[0])
+            if nl is not None:
+                return nl, sub[0]
+            from ..model import expand_text
+
+            r.fail("C13.loops", fi.key + ":phase-domain", "the phase loop of %s iterates `%s`, which is not the phases 1..bound with the skipped ones left out: a bound applied by position to an already filtered list (or any other selection) runs phases above the bound when a lower phase is skipped" % (fi.name, expand_text(fi, cand[0].iter)[:90]), fi.loc(cand[0]))
+            return None, sub[0]
     if len(phase) != 1 or len(sub) != 1:
         raise AnalysisError("%s: expected one phase loop and one subphase loop, found %d/%d" % (fi.key, len(phase), len(sub)))
     ph, sb = phase[0], sub[0]
@@ -88,6 +143,8 @@ def run(ctx):
     fix = p.function("vsg.rule_list:rule_list.fix")
     cph, csb = _loop_info(r, check, "check")
     fph, fsb = _loop_info(r, fix, "fix")
+    if cph is None or fph is None:
+        return r  # the phase domain itself is wrong (reported); the remaining clauses are stated relative to it
 
     # ----- sub-phase ranges equal and constant
     ca = [_const(a) for a in csb.iter.args]
@@ -534,6 +591,11 @@ def _bind_args(fi, call):
 
 _RL = "vsg/rule_list.py"
 VARIANTS = [
+    Variant("C13", "twin: check_rules iterates the non-skipped phases through a comprehension", "silent",
+            [("vsg/rule_list.py", "        for phase in range(1, 8):\n            if phase in lSkipPhase:\n                continue\n\n            for subphase in range(0, 6):\n                lRules = self.get_rules_in_phase(phase)", "        for phase in [iPhase for iPhase in range(1, 8) if iPhase not in lSkipPhase]:\n            for subphase in range(0, 6):\n                lRules = self.get_rules_in_phase(phase)")]),
+    Variant("C13", "fix-phase bound applied by position to the list of non-skipped phases", "fire",
+            [("vsg/rule_list.py", "        for phase in range(1, int(iFixPhase) + 1):\n            if phase in lSkipPhase:\n                if phase == 1:\n                    self.oVhdlFile.set_token_indent()\n                continue\n", "        lPhases = [phase for phase in range(1, 8) if phase not in lSkipPhase]\n        if 1 in lSkipPhase:\n            self.oVhdlFile.set_token_indent()\n        for phase in lPhases[: int(iFixPhase)]:\n")],
+            rule="C13.loops", key="phase-domain"),
     Variant("C13", "configured skip_phase filtered to phases 1..6 on its way to the phase loops", "fire",
             [("vsg/config.py", "        commandLineArguments.skip_phase = configuration[\"skip_phase\"]", "        commandLineArguments.skip_phase = [iPhase for iPhase in configuration[\"skip_phase\"] if iPhase in range(1, 7)]")],
             rule="C13.forwarding", key="verbatim"),
